@@ -139,8 +139,20 @@ func (r *rwRT) ruleTmplStmts() {
 					f["Else"] = pAny{}
 					if e2 := matchTmpl(o.St, n, ndOpen("IfStmt", f)); e2 == nil {
 						ob := o.St.Obj(unwrap(n))
-						if !strings.Contains(o.St.Render(ob.Fields["Else"]), els+".block") {
-							err = fmt.Errorf("%s: the else branch of the lowered if is not the rewritten else block: %s", shp.desc, o.St.Render(ob.Fields["Else"]))
+						elseR := epochRe.ReplaceAllString(o.St.Render(ob.Fields["Else"]), "")
+						whole := "⟨" + els + ".block⟩"
+						if elseR != whole {
+							// merged into an else-if: only admissible when the rewritten else block consists of exactly that one statement
+							single := false
+							for _, l := range o.St.Labels {
+								ll := epochRe.ReplaceAllString(l, "")
+								if strings.HasPrefix(ll, "==(len(⟨"+els+".block.List⟩), 1)") && strings.HasSuffix(ll, "=true") {
+									single = true
+								}
+							}
+							if !strings.Contains(elseR, els+".block") || !single {
+								err = fmt.Errorf("%s: the else branch of the lowered if is neither the rewritten else block nor its single statement (statements of the else block are dropped): %s", shp.desc, elseR)
+							}
 						}
 					}
 				case strings.Contains(shp.desc, "else=elseif"):
@@ -179,12 +191,19 @@ func (r *rwRT) ruleTmplStmts() {
 						continue
 					}
 					lv, _ := bodyObj.Fields["List"].(SliceV)
-					if len(lv.Elems) != 2 {
+					if strings.HasPrefix(bodyObj.Site, "input") {
 						continue // the original body re-used (all cases trivial)
 					}
+					if len(lv.Elems) != 2 {
+						checked++
+						if err == nil {
+							err = fmt.Errorf("%s: the rebuilt switch has %d clause(s), the source has 2 (a clause is dropped: its values fall through to default or to a later clause)", shp.desc, len(lv.Elems))
+						}
+						continue
+					}
 					c0o, c1o := o.St.Obj(unwrap(lv.Elems[0])), o.St.Obj(unwrap(lv.Elems[1]))
-					if c0o == nil || strings.HasPrefix(c0o.Site, "input") {
-						continue // original clauses
+					if c0o == nil {
+						continue
 					}
 					checked++
 					r0 := retOf(o, "case0.Body", shp.leaves)
